@@ -116,6 +116,27 @@ def replay_user_velocities(model):
     return out
 
 
+def replay_zero_com_angular(model):
+    """Real torch: _zero_com(remove_angular=True, translate_to_origin=False) on an off-centre, rotating 3-atom molecule."""
+    import torch
+    import seqm.MolecularDynamics as M
+
+    torch.set_default_dtype(torch.float64)
+    md = object.__new__(M.Molecular_Dynamics_Basic)
+    torch.nn.Module.__init__(md)
+    mass = torch.tensor([[15.999, 1.008, 1.008]]).unsqueeze(2)
+    x = torch.tensor([[[3.0, 2.0, 1.0], [3.96, 2.0, 1.1], [2.76, 2.93, 0.9]]])
+    v = torch.tensor([[[0.001, -0.002, 0.0005], [0.01, 0.004, -0.003], [-0.006, 0.002, 0.008]]])
+    mol = Obj(species=torch.tensor([[8, 1, 1]]), mass=mass, coordinates=x.clone(), velocities=v.clone())
+    md._zero_com(mol, remove_angular=True, translate_to_origin=False)
+    Mtot = mass.sum()
+    rc = (mass * mol.coordinates).sum(1) / Mtot
+    P = (mass * mol.velocities).sum(1)[0]
+    L = (mass * torch.linalg.cross(mol.coordinates - rc, mol.velocities, dim=2)).sum(1)[0]
+    scale = float((mass * v.abs()).sum())
+    return {"reproduced": bool(float(L.abs().max()) > 1e-9 * scale or float(P.abs().max()) > 1e-9 * scale), "linear_momentum_after": P.tolist(), "angular_momentum_about_COM_after": L.tolist()}
+
+
 def task_zero_com(ctx):
     """O2/O3: _zero_com zeroes the linear momentum, removes I*omega of angular momentum with the textbook inertia tensor,
     restores the kinetic energy exactly, and does not touch padding slots."""
@@ -173,7 +194,7 @@ def task_zero_com(ctx):
             for a in range(3):
                 for b in range(3):
                     spec = sum(mol.mass.a[0, i, 0] * ((sum(r[i][c] ** 2 for c in range(3)) if a == b else 0) - r[i][a] * r[i][b]) for i in range(n))
-                    ctx.prove_eq(tag + ".inertia[%d,%d]" % (a, b), I.a[0, a, b], spec, pc=p.pc, shape=shape)
+                    ctx.prove_eq(tag + ".inertia[%d,%d]" % (a, b), I.a[0, a, b], spec, pc=p.pc, shape=shape, replay=replay_zero_com_angular)
             if pad:
                 for c in range(3):
                     ctx.prove_eq(tag + ".padding-stays-at-rest[%d]" % c, mol.velocities.a[0, nat, c], v0.a[0, nat, c], pc=p.pc, shape=shape,
@@ -214,7 +235,7 @@ def task_zero_com_angular(ctx):
         L1 = _angmom(mol, r, mol.velocities)
         for a in range(3):
             want = L0[a] - sum(I.a[0, a, b] * omega[b] for b in range(3))
-            ctx.prove_eq("L' = L - I (X L) [%d]" % a, L1[a], want, pc=p.pc, shape="atoms=2")
+            ctx.prove_eq("L' = L - I (X L) [%d]" % a, L1[a], want, pc=p.pc, shape="atoms=2", replay=replay_zero_com_angular)
 
 
 def task_initialize_velocity(ctx):
